@@ -81,7 +81,7 @@ func propExpiryBounds(c *Case) {
 		c.SeedJitter()
 
 		cfg := cache.Config{
-			TimeToLive: cfgTTL, ExpirationJitter: jit,
+			TimeToLive: cfgTTL, ExpirationJitter: jit, EvictionStrategy: cache.EvictionStrategy(c.Weighted("EvictionStrategy", 2, 1, 1)),
 			// the janitor never runs here; how long ago an entry expired must not change what Read reports
 			DeleteExpiredJobInterval: 2 * farFuture, DeleteExpiredAfter: []time.Duration{2 * farFuture, 0, time.Second}[c.Pick("DeleteExpiredAfter", 3)],
 		}
